@@ -607,6 +607,9 @@ def oracle_c13(row, post):
             fails.append(("status_sync_iff_no_diff", None, "diff succeeds, status fails"))
     # append-only history
     over = None      # no known class any more: `revision` never overwrites or reuses a version (fix fcb5089)
+    if o["rev_rc"] != 0 and (o["rev_added"] or o["rev_changed"] or o["rev_removed"]):
+        fails.append(("revision_never_overwrites", None, "revision exits %d but changed the migrations directory: added %s changed %s removed %s" % (
+            o["rev_rc"], o["rev_added"], o["rev_changed"], o["rev_removed"])))
     if o["rev_removed"] or o["rev_changed"]:
         fails.append(("revision_append_only", over, "revision modified existing migration file(s) %s" % (o["rev_changed"] + o["rev_removed"])))
     if len(o["rev_added"]) > 1:
@@ -782,6 +785,69 @@ def run_fill_streams(hcli, base, seed):
     rows = []
     with ThreadPoolExecutor(max_workers=12) as ex:
         for r in ex.map(lambda ie: run_fill_stream(hcli, base, ie[0], ie[1], seed), list(enumerate(specs))):
+            rows += r
+    return rows
+
+
+def overwrite_streams():
+    """history is append-only, for every migration format: patterns without a version placeholder x message pairs that
+    sanitise to the same file name (same text, case / punctuation / spacing variants) x the nine (migration format, model
+    format) pairs; plus the same with the default pattern (nothing collides there) and a stored version at u32::MAX.
+    (name, config overrides, [(models, message of the revision, message of the second look)], initial migrations)"""
+    ID = {"name": "id", "type": "integer", "nullable": False, "primary_key": True}
+
+    def tbl(*cols):
+        return {"acct.json": {"name": "acct", "columns": [ID] + [{"name": c, "type": "text", "nullable": True} for c in cols]}}
+    fmts = ["json", "yaml", "yml"]
+    pairs = [("add users", "add users"), ("add users", "Add-Users"), ("add users", "ADD  users!"), ("init", " init ")]
+    out = []
+    k = 0
+    for pat in ("%m", "fixed", "%m-x%", "%04v_%m"):
+        for m1, m2 in pairs:
+            for gf in fmts:
+                mf = fmts[k % 3]
+                k += 1
+                out.append(("overwrite-%s-%s-%s-%d" % (gf, mf, pat.replace("%", "p"), k),
+                            {"migrationFilenamePattern": pat, "migrationFormat": gf, "modelFormat": mf},
+                            [(tbl(), m1, "other one"), (tbl("a"), m2, "third"), (tbl("a", "b"), m1, m2)], None))
+    big = {"version": 4294967295, "comment": "big", "actions": [{"type": "create_table", "table": "acct", "columns": [ID], "constraints": []}]}
+    for gf in fmts:
+        out.append(("saturated-%s" % gf, {"migrationFormat": gf}, [(tbl("a"), "big", "other")], {"4294967295_big.vespertide.json": big}))
+    return out
+
+
+def run_overwrite_stream(hcli, base, idx, spec, seed):
+    name, over, steps, initial = spec
+    cfg = {"modelsDir": "models", "migrationsDir": "migrations", "tableNamingCase": "snake", "columnNamingCase": "snake"}
+    cfg.update(over)
+    mext = cfg.get("modelFormat", "json")
+    pdir = os.path.join(base, "w%03d" % idx)
+    shutil.rmtree(pdir, ignore_errors=True)
+    write_project(pdir, cfg)
+    gd = os.path.join(pdir, cfg["migrationsDir"])
+    for fname, plan in (initial or {}).items():
+        os.makedirs(gd, exist_ok=True)
+        open(os.path.join(gd, fname), "w").write(json.dumps(plan, indent=1))
+    backend = BACKENDS[idx % 3]
+    rows = []
+    for si, (models, msg, msg2) in enumerate(steps):
+        write_models(pdir, cfg, {os.path.splitext(rel)[0] + "." + mext: json.dumps(t, indent=1) for rel, t in models.items()})
+        a = observe(hcli, pdir, cfg, msg, "all", backend, "over:%s:%d:a" % (name, si))
+        rows.append(a)
+        if "skip" in a:
+            break
+        b = observe(hcli, pdir, cfg, msg2, "all", backend, "over:%s:%d:b" % (name, si))
+        rows.append(b)
+        if "skip" in b:
+            break
+    return rows
+
+
+def run_overwrite_streams(hcli, base, seed):
+    specs = overwrite_streams()
+    rows = []
+    with ThreadPoolExecutor(max_workers=12) as ex:
+        for r in ex.map(lambda ie: run_overwrite_stream(hcli, base, ie[0], ie[1], seed), list(enumerate(specs))):
             rows += r
     return rows
 
@@ -1032,6 +1098,7 @@ def run_cli(tier, seed):
     for f in sorted(glob.glob(os.path.join(ROOT, "corpus", "cli", "c13_*.json"))):
         rows += run_corpus_case(hcli, base, f)
     rows += run_fill_streams(hcli, base, seed)
+    rows += run_overwrite_streams(hcli, base, seed)
     evos = gen_evolutions(hcli, seed, sz["evolutions"], sz["steps"])
     with ThreadPoolExecutor(max_workers=12) as ex:
         for r in ex.map(lambda ie: run_evolution(hcli, base, ie[0], ie[1], seed), list(enumerate(evos))):
